@@ -36,6 +36,27 @@ CLAIMED = {
         "Correspondence: digests x all 256 hash types x kinds with an independent Python voice, checker on signed inputs and their corruptions, real-chain signatures, "
         "explicit-script sessions under legacy/BIP143 rules and tapscript leaves signed by the independent signer with per-field corruptions under flag subsets.",
         "DESIGN.md section 6 (C02)", "Lean 4 proofs (serializer = BIP digest, checker = validity predicate, congruence of the interpreter in its checker, opcode tables) + four-voice differential correspondence"),
+    "C03": claim(
+        "Lean theorems, for every transaction pair, flag set and checker that agrees with the specification's oracle (hypothesis CheckerAgrees = the "
+        "refinement relation CfgRel of C01/C02 for the session's script environments; C05.Agree for the commitment functions): input selection is the "
+        "specification's (C03_select, _refused, _sound: the selected input must reference the funding transaction, else the first that does; the output "
+        "must exist); per output type, a refusal by configure_tx_txin / setup_environment happens only for an input VerifyScript rejects, and otherwise "
+        "the session run to its end (any fuel >= continueFuel; + 519 for P2SH) finishes without error with exactly the final stack validation requires iff "
+        "VerifyScript accepts: legacy incl. SIGPUSHONLY, CLEANSTACK and SCRIPT_SIZE of either script (C03_legacy, _iff, _refused_configure, _refused_setup), "
+        "P2SH with push-only check, stack copy and redeem script on the rest (C03_p2sh), native P2WPKH / P2WSH with the hash checks = WITNESS_PROGRAM_MISMATCH / "
+        "EQUALVERIFY, item limits, implicit CLEANSTACK (C03_p2wpkh, C03_p2wsh), P2SH-wrapped P2WPKH / P2WSH where the unexecuted P2SH layer is shown equal to the "
+        "HASH160 comparison (C03_p2sh_p2wpkh, C03_p2sh_p2wsh), a witness behind a scriptSig on a non-P2SH output refused = rejected (C03_witness_not_p2sh), "
+        "taproot key path = the BIP340 check with annex handling (C03_keypath), tapscript = C05 commitment phase then the leaf with leaf hash, annex and "
+        "validation weight witness size + 50 (C03_tapscript); all cases together (C03_verdict over Shape) and the case list is complete for every spend the "
+        "debugger accepts (C03_shape_complete). Built on a phase lemma (one script phase of the session = Spec.evalScript of that script: phase_aligned, "
+        "phase_base) and on position independence of legacy/segwit-v0 evaluation (resCore_evalFrom, all opcodes). Explicit exclusions, each a recorded finding: "
+        "F-C03-empty-witness, F-C03-undefined-opcode-refused (NoUndefinedOpcode), F-C03-empty-scriptpubkey, F-C03-witness-flag-off (flags P2SH/WITNESS/TAPROOT "
+        "assumed set), F-C03-future-witness-version (leaf version 0xc0; wrapped v1), F-C03-op-success-refused, F-C03-multi-input-taproot; plus 'the witness "
+        "program is not an all-zero value' (needs a hash preimage). Correspondence: the start-up sequence of main + the session in-process vs model vs "
+        "Spec.verifyInput: ten output types x input position / --select (right, wrong, out of range) x valid and invalid satisfactions by an independent "
+        "signer (signature bit, amount, output, sequence, locktime, version, witness items, program, control block) x flag modifications, hand-built rule cases "
+        "(per-script limits, push-only, P2SH shapes, witness sizes, malleated scriptSigs, future versions), the real-chain pairs of doc/txs.",
+        "DESIGN.md section 6 (C03)", "Lean 4 proof (phase-wise refinement of the session to VerifyScript per output type, symbolic evaluation of the fixed scripts) + three-voice differential correspondence"),
     "C04": claim(
         "Lean theorem C04_rewind_exact: for every session and every history over {step, rewind} of any length in which no step fails, the "
         "state reached equals — as a whole record, including condition stack, code-separator position, signature budget, op count and the "
